@@ -181,6 +181,7 @@ def judgePre (inp obs : Json) : Except String Verdict := do
       | some (sg, w) => (false, sg, w)
       | none =>
         if rtUpd != expectUpd then (false, "C09:updates-lost", s!"runtime received updates {rtUpd}, the synchronized plugins returned {expectUpd}")
+        else if getNatD obs "upd_bad" != 0 then (false, "C09:updates-changed", s!"{getNatD obs "upd_bad"} of the updates the runtime received differ from what the handlers returned")
         else (true, "", "")
   -- ---------------------------------------------------------------- agree, through the model
   let outcomes : List (String × Outcome Nat Unit) := plugins.map fun x =>
@@ -257,6 +258,12 @@ def judge (j : Json) : Except String Verdict := do
   let bad := callsJ.foldl (fun acc c => acc + getNatD c "bad") 0
   let returned := (← getArr obs "returned").map fun x => (x.getNat?.toOption.getD bogus)
   let rtUpd := (← getArr obs "runtime_updates").map fun x => (x.getNat?.toOption.getD bogus)
+  let updBad := getNatD obs "upd_bad"
+  -- the reply: all updates in ONE SynchronizeResponse, 5 bytes of ttrpc Response around it
+  let updSz := expandCounts (← getPairs obs "upd_sizes")
+  let replyWire := updSz.foldl (fun acc s => acc + fieldLen s) 0
+  let replyEnvelope := 5
+  let replyLost := handler == "record" && replyWire + replyEnvelope > limit
   -- size oracle: additive over the encoded object sizes
   let szP := fun (i : Nat) => ps.getD i 0
   let szC := fun (i : Nat) => cs.getD i 0
@@ -292,6 +299,8 @@ def judge (j : Json) : Except String Verdict := do
       else if calls.length != 1 then (false, "C09:handler-calls", s!"synchronized but handler called {calls.length} times")
       else if returned != expectReturned || rtUpd != returned then
         (false, "C09:updates-lost", s!"handler returned updates for {returned}, runtime received {rtUpd}")
+      else if updBad != 0 then
+        (false, "C09:updates-changed", s!"{updBad} of the {rtUpd.length} updates the runtime received differ from what the handler returned")
       else if !activated then (false, "C09:not-activated", "synchronized but not activated")
       else (true, "", "")
     else if outcome == "failed" then
@@ -299,6 +308,16 @@ def judge (j : Json) : Except String Verdict := do
       else if !alive then (false, "C09:crashed", "runtime not alive")
       else if errKind == "handler" && handler == "error" then
         if calls.length == 1 then (true, "", "") else (false, "C09:handler-calls", "handler error reported but handler not called once")
+      else if handler == "exhausted" then
+        -- the handler answered with the status ResourceExhausted: reported with the text of a
+        -- refused request, but the handler HAS been called (once, with everything) unless the
+        -- sender gave up before
+        if calls.length == 1 || !transmissible then (true, "", "")
+        else (false, s!"C09:failed-transmissible:{errKind}", "registration failed before the handler was called although every small message fits")
+      else if replyLost && calls.length == 1 then
+        -- the reply cannot be sent back: the handler was called once with everything, the runtime
+        -- gives up at the request deadline, plugin not activated: the clean failure of the property
+        (true, "", "")
       else if transmissible then
         (false, s!"C09:failed-transmissible:{errKind}",
           s!"registration failed ({errKind}) although every message of ≤ {m} objects fits under the limit")
@@ -325,9 +344,13 @@ def judge (j : Json) : Except String Verdict := do
   -- receiver model on the observed plan
   let h : Handler Nat Nat Nat Unit :=
     if handler == "none" then none
-    else if handler == "error" then some (fun _ _ => .error ())
+    else if handler == "error" || handler == "exhausted" then some (fun _ _ => .error ())
     else some (fun _ cs => .ok (cs.take nUpd))
-  let (rst, replies) := stubRun h RState.init planC
+  -- the stub behind the transport (`wireStub`): the reply's size is the measured one
+  let rsz := fun (r : Reply Nat) => if r.update.isEmpty then 2 else replyWire + replyEnvelope
+  let (rst, replies) := planC.foldl (fun (acc : RState Nat Nat × List (Except (WireErr Unit) (Reply Nat))) c =>
+      let x := wireStub rsz limit h acc.1 c
+      (x.1, acc.2 ++ [x.2])) (RState.init, [])
   let obsReplies := (attempts.filter (·.res != "oversized")).map fun a =>
     if a.res == "ok" then some (a.rupdates, a.rmore) else none
   let mReplies := replies.map fun r => match r with
@@ -336,9 +359,9 @@ def judge (j : Json) : Except String Verdict := do
   let recvOk := !normal || (rst.calls == calls && (mReplies == obsReplies || mReplies ++ [none] == obsReplies))
   -- deterministic model of the PATCHED code (exact arithmetic for float64, envelope of 54
   -- bytes): measured only, never enforced — the property does not depend on the counts
-  let E : Env Nat Nat Nat Unit (RState Nat Nat) :=
+  let E : Env Nat Nat Nat (WireErr Unit) (RState Nat Nat) :=
     { size := fun c => wire c + envelope, limit := limit, policy := policyFixed m, clamp := true,
-      peer := stubRPC h }
+      peer := wireStub rsz limit h, exhausted := wireExhausted (fun _ => handler == "exhausted") }
   let det := synchronize E (fuelBound pods ctrs) RState.init pods ctrs
   let shape := fun (e : Ev Nat Nat Nat) =>
     ((match e with | .sent .. => 0 | .rejected .. => 1 | .errored .. => 2 : Nat),
@@ -398,7 +421,7 @@ def judge (j : Json) : Except String Verdict := do
     ++ (if outcome == "failed" && errKind == "too-large" && maxObj + 64 ≤ limit then ["refused-though-each-object-fits"] else [])
     ++ (if reshrink then ["reshrink-midway"] else [])
     ++ (if minChunk then ["min-chunk"] else [])
-    ++ (if nUpd > 0 then ["updates"] else [])
+    ++ (if nUpd > 0 then ["updates", if replyLost then "reply:over-limit" else if replyWire + replyEnvelope + 64 > limit then "reply:within-64B-of-limit" else if replyWire > 1000000 then "reply:large" else "reply:small"] else [])
     ++ (if traceOk then ["trace"] else [])
     ++ restartTags
     ++ (if normal then [if detSame then "det-model:same-attempts" else "det-model:different-attempts",
